@@ -275,9 +275,15 @@ impl<'a, 'b, 'c> G<'a, 'b, 'c> {
                 if self.c.chance(100) {
                     // util depends on lib as well? no: lib is only a dependency of app; keep a transitive case:
                     // a third-level package that app does NOT depend on directly
-                    pkgs.push(("deep".to_string(), "/ws/app/build/packages/deep".to_string(), false, vec![]));
+                    // sometimes sorted after `lib` in gleam.toml, sometimes before
+                    let dname = if self.c.chance(128) { "deep" } else { "zdeep" };
+                    pkgs.push((dname.to_string(), format!("/ws/app/build/packages/{}", dname), false, vec![]));
                     let d = pkgs.len() - 1;
                     pkgs[1].3.push(d);
+                    // diamond: the root package depends on it directly as well
+                    if self.c.chance(110) {
+                        pkgs[0].3.push(d);
+                    }
                 }
             }
         }
@@ -292,7 +298,7 @@ impl<'a, 'b, 'c> G<'a, 'b, 'c> {
         for i in 0..nmods.max(pkgs.len().min(nmods + 2)) {
             // make sure every package gets at least one module when there are several
             let pkg = if i < pkgs.len() { i } else { self.c.below(pkgs.len()) };
-            let group = if pkgs[pkg].0 == "deep" { 1 } else { 0 };
+            let group = if pkgs[pkg].0.ends_with("deep") && !pkgs[0].3.contains(&pkg) { 1 } else { 0 };
             let names = if group == 1 {
                 // must also differ from lib's modules (lib sees deep)
                 let mut taken = used_mod_names[1].clone();
